@@ -5,6 +5,7 @@
 
 #include "score.h"
 
+#include <algorithm>
 #include <unordered_map>
 
 using namespace engine;
@@ -321,6 +322,98 @@ void c14_directed(long slot0_budget)
             rec.count("directed:A-clear-B");
             if (a1 != fa || b1 != fb || a2 != fa)
                 rec.violation("A-clear-B", vh::J().str("A", A).str("B", B).num("fresh_A", fa).num("fresh_B", fb).num("A1", a1).num("B_after_clear", b1).num("A_after_clear", a2).done());
+        }
+    }
+    // (a') pairs of pawn structures whose keys agree in the low (or high) 32 bits. Found by learning the per-square
+    //      contributions of the pawn key through pawn_hash() (XOR structure is VERIFIED, not assumed), then a birthday search.
+    {
+        uint64_t contrib[2][64] = {{0}};
+        for (int c = 0; c < 2; ++c)
+            for (int sq = 8; sq < 56; ++sq)
+            {
+                Board b;
+                b.sq[6] = orc::WK;
+                b.sq[62] = orc::BK;
+                b.sq[sq] = c == 0 ? orc::WP : orc::BP;
+                contrib[c][sq] = Position(b.fen()).pawn_hash();
+            }
+        struct St
+        {
+            uint64_t key, w, b;
+        };
+        auto build = [&](const St& st, std::string& fen) -> bool {
+            Board b;
+            b.stm = orc::WHITE;
+            b.sq[6] = orc::WK;
+            b.sq[62] = orc::BK;
+            b.sq[3] = orc::WQ;
+            b.sq[59] = orc::BQ;
+            b.sq[0] = orc::WR;
+            b.sq[56] = orc::BR;
+            for (int sq = 8; sq < 56; ++sq)
+            {
+                if (st.w >> sq & 1) b.sq[sq] = orc::WP;
+                if (st.b >> sq & 1) b.sq[sq] = orc::BP;
+            }
+            if (!b.retro_legal()) return false;
+            fen = b.fen();
+            return true;
+        };
+        long M = slot0_budget / 4;
+        std::vector<St> v;
+        v.reserve(size_t(M));
+        for (long i = 0; i < M; ++i)
+        {
+            St st{0, 0, 0};
+            int nw = 1 + int(RNG->below(6)), nb = 1 + int(RNG->below(6));
+            for (int k = 0; k < nw; ++k) st.w |= 1ULL << (8 + RNG->below(48));
+            for (int k = 0; k < nb; ++k) st.b |= 1ULL << (8 + RNG->below(48));
+            st.b &= ~st.w;
+            for (int sq = 8; sq < 56; ++sq)
+            {
+                if (st.w >> sq & 1) st.key ^= contrib[0][sq];
+                if (st.b >> sq & 1) st.key ^= contrib[1][sq];
+            }
+            v.push_back(st);
+        }
+        std::vector<std::pair<std::string, std::string>> close_pairs;
+        for (int pass = 0; pass < 2 && close_pairs.size() < 10; ++pass)
+        {
+            auto part = [pass](const St& s) { return pass == 0 ? (s.key & 0xFFFFFFFFULL) : (s.key >> 32); };
+            std::sort(v.begin(), v.end(), [&](const St& x, const St& y) { return part(x) < part(y); });
+            int taken = 0;
+            for (size_t i = 1; i < v.size() && taken < 5; ++i)
+            {
+                if (part(v[i]) != part(v[i - 1]) || v[i].key == v[i - 1].key) continue;
+                std::string fa, fb;
+                if (!build(v[i - 1], fa) || !build(v[i], fb)) continue;
+                Position PA(fa), PB(fb);
+                // the learnt XOR model must reproduce the real keys, otherwise this pair proves nothing
+                if (PA.pawn_hash() != v[i - 1].key || PB.pawn_hash() != v[i].key)
+                {
+                    rec.count("directed:xor-model-mismatch");
+                    continue;
+                }
+                if (endgame::score(PA) != VALUE_NONE || endgame::score(PB) != VALUE_NONE) continue;
+                close_pairs.push_back({fa, fb});
+                rec.count(pass == 0 ? "directed:low32-collision-pairs" : "directed:high32-collision-pairs");
+                ++taken;
+            }
+        }
+        for (auto& pr : close_pairs)
+        {
+            const std::string &A = pr.first, &B = pr.second;
+            Value fa = fresh_score(A), fb = fresh_score(B);
+            PositionScorer L;
+            Position PA(A), PB(B);
+            vh::set_case(A.c_str(), "c14 32-bit-collision A-B-A");
+            Value a1 = L.score(PA), b1 = L.score(PB), a2 = L.score(PA);
+            PositionScorer L2;
+            Value b0 = L2.score(PB), a0 = L2.score(PA);
+            rec.evaluations += 5;
+            rec.count("directed:32bit-collision-A-B-A");
+            if (a1 != fa || b1 != fb || a2 != fa || b0 != fb || a0 != fa)
+                rec.violation("A-B-A:keys-agree-in-32-bits", vh::J().str("A", A).str("B", B).num("fresh_A", fa).num("fresh_B", fb).num("A1", a1).num("B_after_A", b1).num("A_again", a2).num("A_after_B", a0).done());
         }
     }
     // (b) a structure whose key falls into slot 0, then clear, then pawnless positions
